@@ -39,6 +39,26 @@ def gen_fm():
         ("fm_cap_formula",
          has(r"let ideal_part_weight = total_weight\.to_f64\(\)\.unwrap\(\) / 2\.0; W::from_f64\(ideal_part_weight \+ max_imbalance \* ideal_part_weight\)\.unwrap\(\)")
          and has(r"None => \*part_weights\.iter\(\)\.max_by\(crate::partial_cmp\)\.unwrap\(\),")),
+        # the cap lives in the weight type W and the per-move test is done in W: one untyped
+        # binding holding the whole `match` (the W::from_f64 round trip / the heaviest part itself) ...
+        ("fm_cap_bound_in_weight_type",
+         has(r"let max_part_weight = match max_imbalance \{ Some\(max_imbalance\) => \{ let total_weight: W = part_weights\.iter\(\)\.cloned\(\)\.sum\(\); "
+             r"let ideal_part_weight = total_weight\.to_f64\(\)\.unwrap\(\) / 2\.0; "
+             r"W::from_f64\(ideal_part_weight \+ max_imbalance \* ideal_part_weight\)\.unwrap\(\) \} "
+             r"None => \*part_weights\.iter\(\)\.max_by\(crate::partial_cmp\)\.unwrap\(\), \};")),
+        # ... which is never rebound, shadowed or converted (binding + the test = 2 occurrences;
+        # target_part_weight: let, test, returned pair = 3), and no float conversion inside the scan
+        ("fm_cap_test_in_weight_type",
+         len(re.findall(r"\bmax_part_weight\b", b)) == 2
+         and len(re.findall(r"\btarget_part_weight\b", b)) == 3
+         and (lambda m: m is not None and not re.search(r"to_f64|as f64|as f32|from_f64|to_f32", m.group(0)))(
+             re.search(r"\.find_map\(.*?\.min_by\(", b))),
+        # weights and part weights are of type W (the caller's i64 / f64), summed by compute_parts_load
+        ("fm_part_weights_in_weight_type",
+         re.search(r"fn fiduccia_mattheyses<W, T>\(\s*partition: &mut \[usize\],\s*weights: &\[W\],", src) is not None
+         and has(r"let mut part_weights = crate::imbalance::compute_parts_load\(partition, 2, weights\.par_iter\(\)\.cloned\(\)\);")
+         and has(r"part_weights\[initial_part\] -= weights\[moved_vertex\]; part_weights\[target_part\] \+= weights\[moved_vertex\];")
+         and has(r"let weight = weights\[\*vertex\];")),
     ]
     out = HEADER.format(src=rel)
     for name, val in facts:
@@ -66,7 +86,10 @@ PROP = dict(
          "NaN/huge/infinite max_imbalance, directed edge) and a heavy-edge family (4%: 2-6 vertices, edges of weight "
          "66000..140000 (thorough: up to 10^6) mixed with light ones so that weighted degrees exceed 2^16, one-sided / "
          "heavy-edge-on-one-side / random partitions, max_bad_move_in_a_row 1..3, several passes: huge negative gains are "
-         "booked, moved and followed by good moves). The quick tier runs cases/4 more, the thorough tier cases/2 more, "
+         "booked, moved and followed by good moves) and a huge-weight family (6%: i64 vertex weights with part sums at 2^52..2^62 "
+         "+- a few units / half-ulps, pinned by one or two huge vertices per part, plus 1..6 movable vertices of weight "
+         "1..5 with positive gains across the cut; cap = heaviest part, max_imbalance 0 / j*2^-52 / 0.1..2 with "
+         "(1+mi)*half near the base; every sum < 2^63; four pinned textbook inputs around 2^53). The quick tier runs cases/4 more, the thorough tier cases/2 more, "
          "against the RELEASE build of the harness (no debug_assert!; the model's fm_dbg flag follows the profile recorded "
          "in each case); a watchdog reports a hang or a runaway move loop as IHang (prop_ok = false). Each case carries the implementation's own trace (per pass: "
          "recorded cut, moves (vertex, gain)) which the model replays and checks for admissibility; distinct = distinct "
@@ -79,6 +102,8 @@ PROP = dict(
         "the trace hook of /repo/src/verif.rs records the (vertex, gain) the implementation actually moved and the "
         "current_edge_cut at each pass start (add-only, feature coupe_verif)",
         "modelled, not verified: i64 overflow of weight sums and gains (contract: they fit), f64 vertex weights (run with i64 only)",
+        "the cap of the checker is the code's own formula (heaviest input part, or trunc(f64(total)/2 + mi*f64(total)/2) in "
+        "IEEE double arithmetic), not (1+mi)*total/2 over the reals: above 2^53 the two differ by up to half an ulp of the total",
     ],
     assumptions=[
         "HashSet iteration yields each element of the set exactly once, in an arbitrary order (the model quantifies over the "
@@ -104,7 +129,7 @@ MANIFEST = dict(
          "that final partition and Metadata coincide; a checker proved equivalent to the property clauses judges every "
          "implementation output; the operators/literals deciding the property are re-read from the source.",
     design_ref="DESIGN.md §7 C07",
-    note="Trusted: Coq kernel; model<->code tie = translator (shape of 9 code fragments) + trace-replay differential runs (8k+2k release / 60k+30k release "
+    note="Trusted: Coq kernel; model<->code tie = translator (shape of 12 code fragments) + trace-replay differential runs (8k+2k release / 60k+30k release "
          "executions); SpecFloat = hardware f64 for the cap formula; HashSet yields each member once; i64 sums do not overflow. "
          "No axioms. Self-loops / non-symmetric matrices are outside the contract (the debug assertion fires there).",
     technique="Coq proof (state invariant over all admissible move sequences; cut_flip lemma of Lib/Graph.v) + translator + "
